@@ -168,7 +168,7 @@ def recipes(env):
             lambda: sa.true(), lambda: sa.false(), lambda: sa.not_(sa.true()), lambda: f.is_(sa.null()), lambda: sa.null().is_(None),
             lambda: sa.and_(f, sa.true(), ta.c.x > 1), lambda: sa.case((f, 1), else_=0) == 1, lambda: f & (ta.c.x > 2) | ~f,
             lambda: sa.literal(True), lambda: sa.literal(None), lambda: f.is_distinct_from(None), lambda: ta.c.x.between(1, 5, symmetric=True),
-            lambda: ta.c.x.is_not_distinct_from(ta.c.y), lambda: ta.c.s.is_not_distinct_from(None), lambda: ta.c.x.not_between(1, 5),
+            lambda: ta.c.x.is_not_distinct_from(ta.c.y), lambda: ta.c.s.is_not_distinct_from(None), lambda: ~ta.c.x.between(1, 5),
         ])()
         return sa.select(ta.c.id).where(e)
 
@@ -328,6 +328,25 @@ def recipes(env):
         if c < 0.95:
             return sa.select(orm.Bundle("bn", A.id, A.x), sa.func.row_number().over(order_by=A.id)).where(A.s.in_([v.next("str")]))
         return sa.delete(B).where(B.q.in_(sa.select(A.x).where(A.flag.is_(True))))
+
+    @rec("copy_edge_shapes")
+    def _(rng, v):
+        """shapes whose clones / pickles are delicate: repeated columns through a subquery, unlabeled scalar
+        subquery exported by a CTE, aliased entity join narrowed with maintain_column_froms"""
+        c = rng.random()
+        if c < 0.3:
+            n = rng.randint(2, 4)
+            inner = sa.select(*[ta.c.s] * n, ta.c.id).where(ta.c.id > v.next("int")).subquery("dup")
+            return sa.select(inner)
+        if c < 0.6:
+            sc = sa.select(sa.func.count(tb.c.id)).where(tb.c.a_id == ta.c.id).scalar_subquery()
+            ct = sa.select(sc, ta.c.id).where(ta.c.x > v.next("int")).cte("edge_cte")
+            return sa.select(ct).where(ct.c.id != v.next("int"))
+        if c < 0.85:
+            A1 = orm.aliased(A)
+            return sa.select(A, A1).join(A1, A1.id == A.x).with_only_columns(ta.c.flag, ta.c.y, maintain_column_froms=True).where(
+                ta.c.id > v.next("int"))
+        return sa.select(ta.c.id).order_by(ta.c.id).limit(v.next("posint")).offset(v.next("posint")).with_for_update(of=ta)
 
     # ---------------------------------------------------------------- dialect specific
     @rec("pg_insert")
